@@ -101,6 +101,33 @@ def build_tables(dp):
                 # (every mass variant of a chosen scan loses its mass, so that no two distinct spectra become one by accident)
                 if row[sc] in scans_hit:
                     row[mc] = None
+        if dp.get("whole_key_tail"):
+            # a spectrum with >= 2 PSMs whose numeric key columns hold whole numbers (written without a decimal point in
+            # %g-style text); one of its PSMs becomes the last row of the file, so that a reader typing each chunk on its
+            # own sees integers in a one-row last chunk and floats elsewhere
+            cols = t["columns"]
+            kc = [cols.index(c) for c in ("ExpMass", "ret_time") if c in t["meta"]["spectrum"]]
+            if kc:
+                si = [cols.index(c) for c in t["meta"]["spectrum"]]
+                groups = {}
+                for ri, row in enumerate(t["rows"]):
+                    groups.setdefault(tuple(row[j] for j in si), []).append(ri)
+                multi = [v for v in groups.values() if len(v) >= 2 and all(t["rows"][v[0]][j] is not None for j in kc)]
+                if multi:
+                    g = multi[dp["whole_key_tail"] % len(multi)]
+                    taken = {tuple(row[j] for j in kc) for row in t["rows"]}
+                    taken = {k for k in taken if None not in k}
+                    new = [float(int(t["rows"][g[0]][j]) + 5000 + 7 * f) for j in kc]
+                    while tuple(new) in taken:
+                        new = [v + 1.0 for v in new]
+                    for ri in g:
+                        for j, v in zip(kc, new):
+                            t["rows"][ri][j] = v
+                    last = len(t["rows"]) - 1
+                    a = g[-1]
+                    t["rows"][a], t["rows"][last] = t["rows"][last], t["rows"][a]
+                    tc = t["meta"]["truth_correct"]
+                    tc[a], tc[last] = tc[last], tc[a]
         if dp.get("int_feature"):
             # an integer-typed feature (whole numbers in text, int64 in Parquet) whose magnitudes exceed 2**24: distinct
             # values that single-precision arithmetic cannot tell apart
